@@ -109,7 +109,23 @@ impl<Wr: Write> XmlSerializer<Wr> {
     #[inline(always)]
     fn qual_name(&mut self, name: &QualName) -> io::Result<()> {
         self.find_or_insert_ns(name);
+        // An unprefixed element in no namespace has to un-declare (xmlns="") a
+        // default namespace that is in scope, or it would inherit it.
+        if name.prefix.is_none() && name.ns.is_empty() && self.default_ns_in_scope() {
+            if let Some(last_ns) = self.namespace_stack.0.last_mut() {
+                last_ns.insert(name);
+            }
+        }
         write_qual_name(&mut self.writer, name)
+    }
+
+    fn default_ns_in_scope(&self) -> bool {
+        for stack in self.namespace_stack.0.iter().rev() {
+            if let Some(Some(el)) = stack.get(&None) {
+                return !el.is_empty();
+            }
+        }
+        false
     }
 
     #[inline(always)]
